@@ -39,6 +39,16 @@ def main():
                 mod.run(ctx)
             except Exception:      # noqa: BLE001
                 ctx.broke("harness: correspondence run failed", traceback.format_exc())
+                if ctx.model is not None and not ctx.violations:
+                    # the model side could not be run (a regenerated model can blow up on a faulty variant of the
+                    # code): look for a failing input on the implementation alone, with the same case streams
+                    import random
+                    ctx.model = None
+                    ctx.rng = random.Random(seed)
+                    try:
+                        mod.run(ctx)
+                    except Exception:      # noqa: BLE001
+                        ctx.broke("harness: oracle-only run failed", traceback.format_exc())
             if tier == 'thorough' and hasattr(mod, 'thorough'):
                 mod.thorough(ctx)
             rc = finish(ctx, level=getattr(mod, 'LEVEL', 'proof'),
